@@ -39,18 +39,20 @@ m = {
  "version": 1,
  "setup_cmd": "./check --setup",
  "hooks": {
-   "guard": "--cfg poster_verif",
+   "guard": "--cfg poster_verif (harness) and --cfg poster_verif_loom (loom harness)",
    "enable": "RUSTFLAGS-equivalent [build] rustflags = [\"--cfg\", \"poster_verif\"] in /verif/harness/.cargo/config.toml; the harness depends on poster by path = /repo",
    "baseline_off_cmd": "cd /repo && cargo test --workspace --no-fail-fast --offline",
    "source_commits": hook_shas,
    "add_only": True,
  },
  "engines": [
+   {"name": "pvloom", "path": "loomharness/", "serves_properties": ["C11"],
+    "kind_free_text": "loom::model over real ContextHandle clones on 2-3 threads (identifier counters are loom atomics under --cfg poster_verif_loom); all interleavings at the two library atomics, the queue drained through the real Context and decoded by the reference decoder; run as a part of ./check C11"},
    {"name": "pvcheck", "path": "harness/", "serves_properties": sorted(CHECKS.keys()),
     "kind_free_text": "Rust harness: stateless DFS explorer with deviation bounding (pvcore::explore), independent MQTT 5 reference codec (pvcore::refcodec), mock transport + strict-waker executor around the real poster Context (pvcheck::world), reference client model (pvcheck::model)"},
  ],
  "checks": [],
- "notes": "see DESIGN.md; known findings in known_findings.json; ./check replay <file> re-executes a violation",
+ "notes": "see DESIGN.md; known findings in known_findings.json (1 open, 20 fixed by fix: commits in /repo); ./check replay <file> re-executes a violation; detection demonstrations: tools/mutants.sh (mutants/*.patch), tools/seedall.sh (seeded/*/patch.diff), tools/regress.sh (reverts each fix commit)",
  "not_applicable": [],
 }
 for i in ids:
